@@ -12,6 +12,7 @@ import framework as fw
 
 LEVEL = "proof"
 USE_TWINS = True
+EXTRACTORS = ["ray_constants"]     # Props/C02.lean instantiates the medium with twin/Ray.body (C01)
 TECHNIQUE = ("Lean 4 theorems over the real-number reading of a twin model + Float-twin differential run under "
              "random rigid motions and endpoint swaps")
 RULE = ("base cases: SpecializedRayTracer and BasicRayTracer (dz 2..8) in Antarctic / Arasim / Greenland / random "
@@ -29,8 +30,11 @@ LEVEL_TEXT = ("rigid-motion invariance of rho and covariance of (cos phi, sin ph
 LEVEL_NOTE = ("brentq is not modelled (C02_zero_or_two and C02_exists_iff_nonempty assume a total root oracle; the run "
               "compares counts with the table on every case); path length / tof / attenuation of gradient-index paths are "
               "abstract functions of (z_from, z_to, theta0, direct) in the model - their values are tied only through the "
-              "implementation-vs-implementation comparison (closed forms are property C01); uniform and layered attenuation "
-              "is a left Riemann sum, reciprocal only up to step x variation of 1/L_att, which is the tolerance used; "
+              "implementation-vs-implementation comparison; C02_specialized_instance instantiates them with the closed forms "
+              "Ray.specPathLength / Ray.specTof of twin/Ray.body (property C01), attenuation, indirect_r_max and the root "
+              "oracle stay abstract; uniform and layered attenuation is a left Riemann sum, reciprocal only up to step x "
+              "variation of 1/L_att (C02_uniform_atten_reciprocity; the model's nodes and step reproduce the implementation's "
+              "attenuation to 1e-9 on every uniform path), which is the tolerance used; "
               "Fresnel products are direction dependent and not part of the property; the near-vertical band rho < "
               "0.02 |dz| of the gradient tracers (finding K3 of C01) is not sampled")
 ASSUMPTIONS = ["decisions rho < direct_r_max / indirect_r_max within 1e-6 relative of the threshold are not compared "
@@ -249,6 +253,7 @@ def _record(tr, desc):
                 s["theta0"], s["direct"] = float(p.theta0), bool(p.direct)
             if desc["tracer"] == "uniform":
                 s["theta0"], s["refl"] = float(p.theta0), int(p._reflections)
+                s["segs"] = [(float(a[2]), float(b[2]), float(np.sqrt(np.sum((b - a) ** 2)))) for a, b, _ in atten_segments(p)]
             rec["sols"].append(s)
     return rec
 
@@ -397,7 +402,7 @@ def correspondence(run):
     reqs, plan = [], []
     for d, (base, moved, swapped) in zip(cases, recs):
         ice = make_ice(d)
-        p = {"geom": [], "expected": [], "dirs": [], "recip": [], "rot": [], "usols": []}
+        p = {"geom": [], "expected": [], "dirs": [], "recip": [], "rot": [], "usols": [], "attseg": []}
         for (P, Q) in ((d["A"], d["B"]), (d["A2"], d["B2"]), (d["B"], d["A"])):
             p["geom"].append(len(reqs))
             reqs.append("geom %s" % fw.fl(P + Q))
@@ -419,6 +424,12 @@ def correspondence(run):
                 p["recip"].append((len(reqs), s))
                 reqs.append("recip %s %s %d" % (it, fw.fl([d["A"][2], d["B"][2], s["theta0"]]), int(s["direct"])))
         if d["tracer"] == "uniform":
+            p["attseg"] = []
+            for s in base["sols"]:
+                for (z1, z2, ln) in s["segs"]:
+                    if z1 != z2:
+                        p["attseg"].append((len(reqs), s, z1, z2, ln))
+                        reqs.append("attseg %s" % fw.fl([z1, z2, ln, 1.0]))
             it = uice_toks(ice)
             for (P, Q), rec in zip(((d["A"], d["B"]), (d["A2"], d["B2"]), (d["B"], d["A"])), (base, moved, swapped)):
                 p["usols"].append((len(reqs), rec))
@@ -483,6 +494,24 @@ def correspondence(run):
             gg = [x[:1] + x[2:] for x in gg]
             if len(gg) != len(want) or not all(fw.all_close(a, b, 1e-9, 1e-11) for a, b in zip(gg, want)):
                 bad.append("uniform solutions model=%s impl=%s" % (gg[:3], want[:3]))
+        # the model's nodes and step of the left Riemann sum reproduce the implementation's attenuation
+        expo = {}
+        uice = make_ice(d) if p["attseg"] else None
+        for idx, s, z1, z2, ln in p["attseg"]:
+            t = rep[idx].split()
+            vals = fw.unfl(t[1:])
+            if int(t[0]) != len(vals) - 1:
+                bad.append("attseg reply %s" % rep[idx][:80])
+                continue
+            alen = np.asarray(uice.attenuation_length(np.array(vals[1:]), FREQS), float)
+            expo.setdefault(id(s), [s, np.zeros(len(FREQS))])[1] += vals[0] * np.sum(1.0 / alen, axis=0)
+        for s, e in expo.values():
+            if all(z1 != z2 for z1, z2, _ in s["segs"]):
+                run.count("uniform_atten_exponent_vs_model")
+                for x, y in zip(e, s["att"]):
+                    if y > 1e-250 and abs(x + math.log(y)) > 1e-9 * max(1.0, x):
+                        bad.append("attenuation exponent model=%s impl=%s" % (list(e), [-math.log(v) if v > 0 else None for v in s["att"]]))
+                        break
         rots = {}
         for idx, s, key in p["rot"]:
             rots[tuple(s[key])] = fw.unfl(rep[idx].split())
